@@ -341,7 +341,7 @@ fn parse_case(v: &serde_json::Value) -> Option<Case> {
 pub fn run(opts: &Opts) -> i32 {
     let rep = Report::new(
         opts,
-        "history_enumeration",
+        "exploration",
         "v5 server (one instance, two connections) and v5 client (two connections), with and without the library's topic router, \
          client with and without an advertised Topic Alias Maximum: every sequence of bind/rebind/use/use-unbound/exceed-maximum/plain \
          publishes interleaved over both connections up to length 3 (quick: reduced alphabet of 17 operations per connection, thorough: 29) plus random \
